@@ -322,3 +322,21 @@ def fuzz_texts(rng, n):
                           for _ in range(rng.randint(1, 6))) for _ in range(rng.randint(1, 8))]
         out.append(rng.choice([' ', '\n', ' ']).join(ws))
     return out
+
+
+CORE = ['0', '-0', '1', '-1', '9', '1=2', '[tie', '[withdrawn', '2]', ']', '(a)', '(b', '"x', 'y"', '#', '/*', '*/', '=', 'x', '+1']
+
+
+def systematic_texts(alphabet=None, bases=None):
+    "every single-word insertion, substitution and deletion at every position of the base files (no sampling)"
+    out = []
+    for base in (bases or BASES):
+        ws = base.split(' ')
+        for i in range(len(ws) + 1):
+            for a in (alphabet or CORE):
+                out.append(' '.join(ws[:i] + [a] + ws[i:]))
+                if i < len(ws) and ws[i] != a:
+                    out.append(' '.join(ws[:i] + [a] + ws[i + 1:]))
+            if i < len(ws):
+                out.append(' '.join(ws[:i] + ws[i + 1:]))
+    return out
